@@ -1,6 +1,7 @@
 package dml
 
 import (
+	"strings"
 	"fmt"
 
 	"verif/harness/internal/rv"
@@ -142,6 +143,25 @@ func Alphabet(thorough bool) []Op {
 			&Replace{Id: "tmp-rep-sel", Tab: "tmp", Keys: []string{"k"}, Sel: &Select{Exprs: []Expr{C("k"), C("a")}, From: "t"}},
 			&DropCols{Id: "in-drop", Tab: "STDIN", Cols: []string{"s"}},
 		)
+	}
+	// the same statements at the bottom of a nested block
+	nest := map[string][]string{"tmp-ins1": {"if"}, "tmp-upd-all": {"while"}, "in-ins": {"func"}, "tmp-rep1": {"while"}, "t-ins1": {"func"}, "tmp-add": {"if"}}
+	if thorough {
+		nest = map[string][]string{}
+		for _, o := range ops {
+			if strings.HasPrefix(o.ID(), "tmp-") || strings.HasPrefix(o.ID(), "in-") {
+				nest[o.ID()] = []string{"if", "while", "func"}
+			}
+		}
+		nest["t-ins1"] = []string{"func"}
+		nest["t-upd-gt"] = []string{"while"}
+		nest["tu-upd2"] = []string{"if"}
+	}
+	base := len(ops)
+	for _, o := range ops[:base] {
+		for _, k := range nest[o.ID()] {
+			ops = append(ops, &Nested{Inner: o, Kind: k})
+		}
 	}
 	seen := map[string]bool{}
 	for _, o := range ops {
